@@ -197,6 +197,7 @@ pub struct WriterState {
     pub fault: WriteFault,
     pub fault_reported: bool,
     pub fault_writes: usize,
+    pub close_waker: Option<Waker>,
     pub waker: Option<Waker>,
     pub writes: usize,
     pub pendings: usize,
@@ -216,6 +217,7 @@ impl Default for WriterState {
             fault: WriteFault::None,
             fault_reported: false,
             fault_writes: 0,
+            close_waker: None,
             waker: None,
             writes: 0,
             pendings: 0,
@@ -353,8 +355,19 @@ impl AsyncWrite for MockWriter {
         Poll::Ready(Ok(()))
     }
 
-    fn poll_close(self: Pin<&mut Self>, _cx: &mut Context<'_>) -> Poll<io::Result<()>> {
-        self.0.borrow_mut().closes += 1;
-        Poll::Ready(Ok(()))
+    /// Shutting the write half down is not something any listed outcome may depend on (the peer
+    /// may already be gone): by the number of bytes written so far it succeeds, fails, or never
+    /// completes (a waker is kept and never fired).
+    fn poll_close(self: Pin<&mut Self>, cx: &mut Context<'_>) -> Poll<io::Result<()>> {
+        let mut s = self.0.borrow_mut();
+        s.closes += 1;
+        match s.data.len() % 3 {
+            0 => Poll::Ready(Ok(())),
+            1 => Poll::Ready(Err(io::Error::new(io::ErrorKind::BrokenPipe, "mock: close"))),
+            _ => {
+                s.close_waker = Some(cx.waker().clone());
+                Poll::Pending
+            }
+        }
     }
 }
